@@ -9,7 +9,6 @@ CONSTANTS
   StatsThread = FALSE
   OrReacts = TRUE
   EnvLite = TRUE
-  AsIs_Spin = FALSE
   Mut = "none"
 SPECIFICATION Spec
 INVARIANTS TypeOK
